@@ -428,7 +428,10 @@ class Sim(object):
             # at the same virtual instant, let time pass to the next deadline.
             if self.now == self._spin_now and \
                     len(self.events) == self._spin_ev:
-                self._spin_cnt += 1
+                # (steps of threads which were merely pre-empted in the middle
+                # of a computation do not count as polling)
+                if any(t.what != 'preempt' for t in runnable):
+                    self._spin_cnt += 1
                 if self._spin_cnt > self.SPIN_LIMIT:
                     dls = [t.deadline for t in self.threads
                            if t.state == BLOCKED and t.deadline is not None
